@@ -4,7 +4,7 @@ from leanio import farr, dec, ulp_diff
 import common
 
 LEVEL = "proof"
-LEMMA_MODULES = ["Tdma", "Fd"]
+LEMMA_MODULES = ["Tdma", "Fd", "Consts", "MaxPrinciple"]
 RULE = ("correspondence cases: seeded tridiagonal systems (strictly dominant, sizes 2..2000, float and integer "
         "valued), grids (uniform, geometric, random, device-like) and charge densities (smooth, piecewise, wall-charged); "
         "a case is non-trivial when the system has >= 3 rows and a non-zero right-hand side; distinct = distinct (kind, size, seed-index)")
